@@ -471,6 +471,26 @@ def r8_type_variables_in_scope(repo):
         obs.append(Ob("C05-R8", "%s:bounds-rewritten-recursively-after-remove_type" % g.name, _w(g, c), ok,
                       "after type parameters are removed from scope, each remaining parameter's bound must go through "
                       "substitute_type(<bound>, <removal map>) - a removed parameter may occur nested inside a bound: " + why))
+    # an overriding method gets fresh type parameters whose bounds are the overridden ones with the superclass's type
+    # arguments substituted: the substituted bound is installed whatever the substitution changed
+    f = _m(repo, "_gen_type_params_from_existing")
+    bst = [n for n in iter_own_nodes(f.node) if isinstance(n, ast.Assign) and isinstance(n.targets[0], ast.Attribute) and
+           n.targets[0].attr == "bound"]
+    okb = len(bst) >= 1
+    whyb = []
+    for n in bst:
+        obj = src(n.targets[0].value)
+        gs = [(" ".join(src(t).split()), pol) for t, pol in flat_guards(n)]
+        extra = [(t, pol) for t, pol in gs if not ((t == obj + ".bound is None" and not pol) or (t == obj + ".bound" and pol))
+                 and ("bound" in t or obj in t)]
+        prov = Prov(f.node)
+        subst = any(isinstance(l, ast.Call) and call_name(l) == "substitute_type" for l in prov.sources(n.value, at=n))
+        if extra or not subst:
+            okb = False
+            whyb.append("`%s` under %s, substituted=%s" % (" ".join(src(n).split()), extra, subst))
+    obs.append(Ob("C05-R8", "_gen_type_params_from_existing:substituted-bound-installed-unconditionally", _w(f), okb,
+                  "the bound of a type parameter copied from the overridden method must be replaced by its substituted form "
+                  "whenever it has a bound (not only when some comparison of old and new holds): %s" % whyb))
     obs.append(Ob("C05-R8", "remove_type-sites>=1", "src/generators/generator.py", len(sites) >= 1,
                   "%d call sites of context.remove_type in the generator" % len(sites)))
     return obs
